@@ -545,7 +545,14 @@ impl<'a> Socket<'a> {
         let mut emit = Some(emit);
         loop {
             let res = self.tx_buffer.dequeue_with(|packet_meta, payload_buf| {
-                let src_addr = if let Some(s) = packet_meta.local_address {
+                // The metadata of a received datagram carries the address it was sent to, and
+                // replying with that very metadata is the usual idiom. A broadcast or multicast
+                // address is never a valid source (RFC 1122 3.2.1.3): select one as if the
+                // application had not named any.
+                let local_address = packet_meta
+                    .local_address
+                    .filter(|addr| addr.is_unicast() && !cx.is_broadcast(addr));
+                let src_addr = if let Some(s) = local_address {
                     s
                 } else {
                     match endpoint.addr {
